@@ -454,6 +454,18 @@ def int_binop(E, op, a, b, st, sink):
                 if p is not None and isinstance(op, ast.BitAnd):
                     yield st, mk_int(u % p)
                     return
+        # one operand is visibly a single bit in position k (`bit * 2**k` with a numeral 2**k and a visible 0/1 factor, e.g.
+        # `(x & 1) << 7`): exact arithmetic forms, valid for every python int u (no solver call, no int<->bit-vector conversion)
+        for u, v in ((x, y), (y, x)):
+            bk = _visibly_bit_at(v)
+            if bk is not None:
+                t, c = bk
+                bit_u = (u / c) % 2
+                r = {ast.BitOr: z3.If(t == 1, z3.If(bit_u == 0, u + c, u), u),
+                     ast.BitAnd: z3.If(t == 1, bit_u * c, z3.IntVal(0)),
+                     ast.BitXor: z3.If(t == 1, z3.If(bit_u == 0, u + c, u - c), u)}[type(op)]
+                yield st, mk_int(r)
+                return
         # both symbolic: bit-vector mode with a "no bit is lost" side obligation
         W = E.bv_width
         if W is None and E.options.get('bitops') == 'uf':
@@ -547,6 +559,15 @@ def _visibly_bit(t):
     if z3.is_app(t) and t.decl().kind() == z3.Z3_OP_ITE:
         return _visibly_bit(t.arg(1)) and _visibly_bit(t.arg(2))
     return False
+
+
+def _visibly_bit_at(t):
+    """(bit, 2**k) when t is syntactically `bit * 2**k` / `2**k * bit` with a numeral power of two and a visible 0/1 factor"""
+    if z3.is_app(t) and t.decl().kind() == z3.Z3_OP_MUL and t.num_args() == 2:
+        for a, b in ((t.arg(0), t.arg(1)), (t.arg(1), t.arg(0))):
+            if z3.is_int_value(a) and a.as_long() >= 1 and (a.as_long() & (a.as_long() - 1)) == 0 and _visibly_bit(b):
+                return b, a
+    return None
 
 
 def _and_const(x, m):
